@@ -191,6 +191,53 @@ func buildHistory(c *core.Ctx, prop string, idx int, kind string) *histCase {
 		hc.other("flush")
 		hc.reopen()
 		observe(true, 1, 0)
+	case "mirrored":
+		// two tables with the same column names in opposite order; statements
+		// on the one and on the other follow each other directly, with no
+		// SELECT in between: whatever one statement worked out about where a
+		// column sits must not be what the next one goes by
+		push := func(s *proto.Stmt) bool {
+			if f, _, _, err := h.DB.Apply(s); f != "" || err != nil {
+				return false
+			}
+			hc.addStmt(s, st)
+			return true
+		}
+		push(&proto.Stmt{Kind: "create", Table: "ma", Defs: []proto.ColDef{{Name: "k", Type: "int"}, {Name: "v", Type: "int"}, {Name: "w", Type: "int"}}})
+		push(&proto.Stmt{Kind: "create", Table: "mb", Defs: []proto.ColDef{{Name: "w", Type: "int"}, {Name: "v", Type: "int"}, {Name: "k", Type: "int"}}})
+		for _, tn := range []string{"ma", "mb"} {
+			ins := &proto.Stmt{Kind: "insert", Table: tn}
+			for i := 0; i < 14; i++ {
+				ins.Rows = append(ins.Rows, []proto.Val{proto.Int(int64(r.Intn(6))), proto.Int(int64(r.Intn(6))), proto.Int(int64(r.Intn(6)))})
+			}
+			push(ins)
+		}
+		observe(true, 1, 0)
+		cond := func() *proto.Cond {
+			col := []string{"k", "v", "w"}[r.Intn(3)]
+			return model.Cmp([]string{"=", "<", ">="}[r.Intn(3)], model.ColOp(col), model.LitOp(proto.Int(int64(r.Intn(6)))))
+		}
+		for i := 0; i < 12; i++ {
+			a, b := "ma", "mb"
+			if r.Bool() {
+				a, b = b, a
+			}
+			first := &proto.Stmt{Kind: "delete", Table: a, Where: cond()}
+			if r.Bool() {
+				first = &proto.Stmt{Kind: "update", Table: a, Sets: []proto.SetItem{{Col: []string{"k", "v", "w"}[r.Intn(3)], Val: proto.Int(int64(r.Intn(6)))}}, Where: cond()}
+			}
+			second := &proto.Stmt{Kind: "delete", Table: b, Where: first.Where}
+			if r.Chance(1, 3) {
+				second = &proto.Stmt{Kind: "update", Table: b, Sets: []proto.SetItem{{Col: "v", Val: proto.Int(9)}}, Where: first.Where}
+			}
+			push(first)
+			push(second)
+			observe(true, 1, 0)
+			if r.Chance(1, 3) {
+				ins := &proto.Stmt{Kind: "insert", Table: b, Rows: [][]proto.Val{{proto.Int(int64(r.Intn(6))), proto.Int(int64(r.Intn(6))), proto.Int(int64(r.Intn(6)))}}}
+				push(ins)
+			}
+		}
 	case "huge":
 		// single statements that change thousands of pages, nothing flushed in
 		// between, and then the session ends: everything the cache holds has
@@ -300,7 +347,7 @@ func buildHistory(c *core.Ctx, prop string, idx int, kind string) *histCase {
 func historyCheck(c *core.Ctx, prop string) []core.Floor {
 	c.Level = "exploration"
 	if prop == "C01" {
-		c.Rule = "seeded histories of CREATE TABLE/INSERT/UPDATE/DELETE over 1-4 tables (half as SQL text through Session.ExecQuery, half as direct values), random flush placement and reopen; one statement in ten is preceded by an INSERT / UPDATE / DELETE on a table that does not exist yet (refused; the name is the one the next CREATE TABLE uses); SELECT * of every table and of the catalog compared with an in-memory model after every statement (small) or every 5 statements (deep/catalog). Distinct = script hash; non-trivial = the history contained a leaf split after a delete on the same table, or a root move."
+		c.Rule = "seeded histories of CREATE TABLE/INSERT/UPDATE/DELETE over 1-4 tables (half as SQL text through Session.ExecQuery, half as direct values), random flush placement and reopen; one statement in ten is preceded by an INSERT / UPDATE / DELETE on a table that does not exist yet (refused; the name is the one the next CREATE TABLE uses); SELECT * of every table and of the catalog compared with an in-memory model after every statement (small) or every 5 statements (deep/catalog); twelve histories over two tables with the same column names in opposite order, statements on the one and the other following each other directly (compared after every pair); two histories (six in the thorough tier) with single statements of 9000-36000 rows, nothing flushed, then the session closed and reopened. Distinct = script hash; non-trivial = the history contained a leaf split after a delete on the same table, or a root move."
 	} else {
 		c.Rule = "same histories as C01; every page reachable from every table root dumped at quiescent points (between statements, timer off) and checked for the shape invariants, with the engine's own point lookup and reverse scan run on every stored key; about one statement in twelve is followed by dropping every in-memory structure and running recovery, so that many of the walked trees were rebuilt by log replay; one history in seventeen runs with a page cache of 14-28 pages, smaller than its catalog of 10-14 tables, flushing after every statement, so that pages a statement has already looked at (its table's root among them) are pushed out while it scans the catalog. Distinct = script hash; non-trivial = the walk saw a tree with >= 2 levels."
 	}
@@ -319,6 +366,9 @@ func historyCheck(c *core.Ctx, prop string) []core.Floor {
 	}
 	for i := 0; i < nCat; i++ {
 		cases = append(cases, buildHistory(c, prop, 2000000+i, "catalog"))
+	}
+	for i := 0; i < 12; i++ {
+		cases = append(cases, buildHistory(c, prop, 6000000+i, "mirrored"))
 	}
 	nHuge := 2
 	if !core.Quick(c) {
